@@ -442,12 +442,14 @@ PROPS["C14"] = {
                    "replaceable races, deletions and the same event submitted by all threads at a barrier, random "
                    "jitter at all points; a replacement storm (one writer replacing two addresses 1500-4000 times, six "
                    "readers with online monitors: an occupied address never reads as empty, never holds two events, "
-                   "never goes back in time for one thread); offline: successful stores replayed in offset order through the model "
+                   "never holds an event older than one whose store had already returned before the lookup began); offline: successful stores replayed in offset order through the model "
                    "(none may be forbidden at its commit position), every failed store and every read must fit some "
                    "committed state within its real-time window, final state equal. Leg 3: any run without progress "
                    "for 30 s is examined with gdb; only an exhibited wait cycle is a violation. Growth scenarios "
                    "(debug chunks, child processes): a growing writer against 12 readers taking addresses only (g1: "
-                   "bounded progress) and comparing bytes through query results (g2)."),
+                   "bounded progress) and comparing bytes through query results (g2); six writer threads with no reader, mixed "
+                   "kinds including ephemeral ones, after which every returned offset and id must read back the bytes "
+                   "that were stored (g3)."),
     "level_note": "legs 1-2 run in release with < 4 MiB appended so the map is never resized there; remove_event and vanish are exercised in leg 1 only (no offset to order them by); vanish overlapping a query is not required to be all-or-nothing (it is a sequence of removals by design); TSan is not usable as an oracle here (DESIGN.md §2)",
     "legs": c14_legs,
     "parallel": 4,
